@@ -606,3 +606,37 @@ Theorem load_behaves : forall (R : Type) (run : fn -> R) c f,
 Proof.
   intros R run c f W. pose proof (de_ser_fn c f [] W) as H. rewrite app_nil_r in H. rewrite H. reflexivity.
 Qed.
+
+(* ---------- dangling references (known finding `load-crash:corrupt:instr-index:*`) ---------- *)
+(* The decoder is faithful to the implementation: it returns functions whose instructions point outside
+   their own tables.  The full statement is false; the checked decoder has it. *)
+Definition decode_checks_refs_full_stmt : Prop :=
+  forall c bs f r, decode_fn c bs = Some (f, r) -> refs_ok f = true.
+
+Theorem decode_checks_refs_refuted :
+  exists c bs f r, decode_fn c bs = Some (f, r) /\ wf_fnb f = true /\ refs_ok f = false.
+Proof.
+  exists Varint, (enc_fn Varint (Fn 0 1 [IPushString 7; IReturn] [] [])),
+         (Fn 0 1 [IPushString 7; IReturn] [] []), [].
+  vm_compute. repeat split; reflexivity.
+Qed.
+
+Theorem checked_decode_sound : forall c bs f r,
+  checked_decode c bs = Some (f, r) -> refs_ok f = true /\ decode_fn c bs = Some (f, r).
+Proof.
+  intros c bs f r H. unfold checked_decode in H.
+  destruct (decode_fn c bs) as [[g r']|]; [|discriminate].
+  destruct (refs_ok g) eqn:E; [|discriminate]. injection H as H1 H2. subst. split; [exact E|reflexivity].
+Qed.
+
+Theorem checked_decode_complete : forall c f r,
+  wf_fnb f = true -> refs_ok f = true -> checked_decode c (enc_fn c f ++ r) = Some (f, r).
+Proof.
+  intros c f r W R. unfold checked_decode. rewrite (de_ser_fn c f r W). rewrite R. reflexivity.
+Qed.
+
+Theorem checked_decode_prefix_fails : forall c f p q,
+  wf_fnb f = true -> enc_fn c f = p ++ q -> q <> [] -> checked_decode c p = None.
+Proof.
+  intros c f p q W E Hq. unfold checked_decode. rewrite (de_prefix_fails c f p q W E Hq). reflexivity.
+Qed.
